@@ -51,7 +51,7 @@ func checkC18() int {
 		fmt.Fprintln(os.Stderr, "grits binary missing:", err)
 		return 2
 	}
-	c.Rule = "the built grits binary (go build of /repo, no tag) is run on files: corpus, G1 programs, ill-typed single-edit mutants, unparseable edits; flags drawn from {--typecheck(=false), --notypecheck} x {--execute(=false), --noexecute} x {default, --sync, --async} x --verbosity 1..3; expected verdicts come from the worker's parse/typecheck of the same text (and R1 where there is an AST; cases where they disagree are skipped); oracle: exit status 0 iff parse ok and (typecheck skipped or ok); no '> label' line when status != 0 or execution is off; exactly one diagnostic line on failure; never a Go panic trace; non-trivial = distinct (file, flag set) with a known expected status"
+	c.Rule = "the built grits binary (go build of /repo, no tag) is run on files: corpus, G1 programs, ill-typed single-edit mutants, unparseable edits; flags: 0..3 occurrences each of --typecheck[=v] / --notypecheck[=v] and --execute[=v] / --noexecute[=v] in any order (a stage runs iff its positive flag is true and its negative flag false, each at its last value) x {default, --sync, --async} x --verbosity 1..3; expected verdicts come from the worker's parse/typecheck of the same text (and R1 where there is an AST; cases where they disagree are skipped); oracle: exit status 0 iff parse ok and (typecheck skipped or ok); no '> label' line when status != 0 or execution is off; exactly one diagnostic line on failure; never a Go panic trace; non-trivial = distinct (file, flag set) with a known expected status"
 	c.Assumptions = []string{"each executing invocation costs the real 50 ms heartbeat; a 30 s timeout is inconclusive"}
 	var cases []*cliCase
 	add := func(src, text string) { cases = append(cases, &cliCase{id: fmt.Sprintf("f%d", len(cases)), text: text, source: src}) }
@@ -129,29 +129,38 @@ func checkC18() int {
 		os.WriteFile(path, []byte(cc.text), 0o644)
 		for k := 0; k < perFile; k++ {
 			inv := &cliInv{cc: cc}
-			switch r.Intn(5) {
-			case 0:
-				inv.args = append(inv.args, "--notypecheck")
-				inv.noTC = true
-			case 1:
-				inv.args = append(inv.args, "--typecheck=false")
-				inv.noTC = true
-			case 2:
-				inv.args = append(inv.args, "--typecheck")
+			// 0..3 occurrences of the typecheck flags and of the execute flags, in any order and
+			// with explicit values; the documented meaning: a stage runs iff its positive flag is
+			// (still) true and its negative flag is (still) false, each flag keeping its last value
+			pair := func(pos, neg string) (off bool, toks []string) {
+				p, n := true, false
+				k := []int{0, 1, 1, 1, 2, 2, 3}[r.Intn(7)]
+				for i := 0; i < k; i++ {
+					switch r.Intn(6) {
+					case 0:
+						toks, p = append(toks, "--"+pos), true
+					case 1:
+						toks, p = append(toks, "--"+pos+"=false"), false
+					case 2:
+						toks, p = append(toks, "--"+pos+"=true"), true
+					case 3, 4:
+						toks, n = append(toks, "--"+neg), true
+					default:
+						toks, n = append(toks, "--"+neg+"=false"), false
+					}
+				}
+				return !(p && !n), toks
 			}
-			switch r.Intn(5) {
-			case 0:
-				inv.args = append(inv.args, "--noexecute")
-				inv.noExec = true
-			case 1:
-				inv.args = append(inv.args, "--execute=false")
-				inv.noExec = true
-			case 2:
-				inv.args = append(inv.args, "--execute")
-			case 3:
-				// an explicit --execute must not override --noexecute
-				inv.args = append(inv.args, "--execute", "--noexecute")
-				inv.noExec = true
+			var tt, et []string
+			inv.noTC, tt = pair("typecheck", "notypecheck")
+			inv.noExec, et = pair("execute", "noexecute")
+			// interleave the two groups
+			for len(tt)+len(et) > 0 {
+				if len(et) == 0 || (len(tt) > 0 && r.Intn(2) == 0) {
+					inv.args, tt = append(inv.args, tt[0]), tt[1:]
+				} else {
+					inv.args, et = append(inv.args, et[0]), et[1:]
+				}
 			}
 			switch r.Intn(4) {
 			case 0:
